@@ -147,7 +147,8 @@ Edits(h, fl) ==
        {<<"skip", k, 0>> : k \in 1..Len(h)}
   \cup {<<"dup", k, 0>> : k \in 1..Len(h)}
   \cup {<<"swap", k, 0>> : k \in {j \in 1..(Len(h) - 1) : fl[j] = fl[j + 1]}}
-  \cup {<<"ins", k, t>> : k \in 2..(Len(h) + 1), t \in Fab}
+  \* (k = 1: a fabricated message ahead of the peer's very first one)
+  \cup {<<"ins", k, t>> : k \in 1..(Len(h) + 1), t \in Fab}
   \* "rep" = the peer sends a fabricated message of type t IN PLACE of message k
   \cup {<<"rep", k, t>> : k \in 2..Len(h), t \in Fab}
   \cup {e \in {<<"cpy", k, j>> : k \in 3..(Len(h) + 1), j \in 1..(Len(h) - 1)} : e[3] < e[2] - 1}
